@@ -141,12 +141,21 @@ def run(rep, tier, seed):
                 tspan = [t0, t0 + span]
             else:
                 tspan = np.linspace(t0, t0 + span, int(rng.integers(3, 8)))
+            # Rodas only: a terminal event in the middle of the span on some calls (the bookkeeping of a terminal event works on
+            # the requested nodes: the caller's span must stay what it was); every other solver gets no event function
+            if name == "Rodas" and rng.random() < 0.4:
+                c_ev = t0 + float(rng.choice([0.35, 0.6])) * span
+                shared_opt.event = (lambda cc: (lambda t, y: (np.array([t - cc]), np.array([True]), np.array([0.0]))))(c_ev)
+                step_event = c_ev
+            else:
+                shared_opt.event = None
+                step_event = None
             # parameter change by the caller between calls
             if rng.random() < 0.3:
                 for pk in shared_model[kind].p:
                     shared_model[kind].p[pk] = shared_model[kind].p[pk] * float(rng.choice([1.0, 2.0, 0.5]))
             step = dict(solver=name, opt={k2: (None if v2 is None else (v2 if isinstance(v2, (str, int)) else float(v2))) for k2, v2 in vals.items()},
-                        tspan=[float(x) for x in tspan], y0_is_vars=use_vars)
+                        tspan=[float(x) for x in tspan], y0_is_vars=use_vars, terminal_event_at=step_event)
             history.append(step)
             ncalls += 1
             # snapshots
